@@ -252,6 +252,50 @@ mod verif_c13 {
         kani::cover!(true);
     }
 
+    // ---- E2. newtype structs (what #[derive(Serialize, Deserialize)] generates for `struct W(i64);`) --------------
+    #[derive(PartialEq)]
+    pub struct W(pub i64);
+    impl serde::Serialize for W {
+        fn serialize<S: serde::Serializer>(&self, s: S) -> Result<S::Ok, S::Error> {
+            s.serialize_newtype_struct("W", &self.0)
+        }
+    }
+    impl<'de> Deserialize<'de> for W {
+        fn deserialize<D: Deserializer<'de>>(d: D) -> Result<W, D::Error> {
+            struct V;
+            impl<'de> Visitor<'de> for V {
+                type Value = W;
+                fn expecting(&self, _: &mut fmt::Formatter<'_>) -> fmt::Result {
+                    Ok(())
+                }
+                fn visit_newtype_struct<D: Deserializer<'de>>(self, d: D) -> Result<W, D::Error> {
+                    i64::deserialize(d).map(W)
+                }
+                fn visit_seq<A: SeqAccess<'de>>(self, mut a: A) -> Result<W, A::Error> {
+                    match a.next_element()? {
+                        Some(x) => Ok(W(x)),
+                        None => Err(de::Error::invalid_length(0, &self)),
+                    }
+                }
+            }
+            d.deserialize_newtype_struct("W", V)
+        }
+    }
+
+    #[kani::proof]
+    #[kani::stub(core::fmt::write, nofmt_write)]
+    fn rt_newtype_struct() {
+        let v: i64 = kani::any();
+        match Any::new(W(v)) {
+            Ok(a) => match a.deserialize_into::<W>() {
+                Ok(back) => assert!(back.0 == v),
+                Err(_) => assert!(false),
+            },
+            Err(_) => assert!(false),
+        }
+        kani::cover!(true);
+    }
+
     // ---- F. container frames, one step at a time (recursive drop glue of Any never unrolled) ------------
     #[kani::proof]
     #[kani::stub(core::fmt::write, nofmt_write)]
